@@ -216,7 +216,22 @@ def _solve_one(args):
                 return idx, 'unsat', time.time() - t0, None, 'cvc5'
         return idx, str(r), time.time() - t0, None, who
     s.add(z3.Not(ob.goal))
+    # portfolio: z3 briefly, then cvc5 on the same query, then z3 with the full budget
+    s.set('timeout', min(timeout_ms, 4000))
     r = s.check()
+    backend = 'z3'
+    if r == z3.unknown:
+        smt2 = s.to_smt2()
+        r2, who = _external(smt2, 15, only='cvc5')
+        if r2 == 'unsat':
+            return idx, 'unsat', time.time() - t0, None, 'cvc5'
+        s2 = z3.Solver()
+        s2.set('timeout', timeout_ms)
+        s2.set('random_seed', seed + 1)
+        s2.add(*ob.pc)
+        s2.add(z3.Not(ob.goal))
+        r = s2.check()
+        s = s2
     model = None
     smt2 = None
     if r == z3.sat:
@@ -225,9 +240,7 @@ def _solve_one(args):
             model = {}
             for d in m.decls():
                 if d.arity() == 0:
-                    v = m[d]
-                    if not z3.is_array(v) or True:
-                        model[d.name()] = str(v)[:400]
+                    model[d.name()] = str(m[d])[:400]
         except Exception as ex:   # noqa
             model = {'error': str(ex)}
     elif r == z3.unknown:
@@ -307,7 +320,7 @@ def discharge(obs, timeout_ms=20000, procs=16, seed=0, ext_timeout_s=20, use_ext
                 if r == 'unknown' and isinstance(extra, tuple) and extra[1] and obs[idx].kind == 'ob':
                     ext.append((idx, extra[1]))
                 done.append(idx)
-            elif time.time() - t0 > (timeout_ms if obs[idx].kind != 'canary' else min(timeout_ms, 3000) + 6000) / 1000.0 + grace:
+            elif time.time() - t0 > (timeout_ms + 20000 if obs[idx].kind != 'canary' else min(timeout_ms, 3000) + 6000) / 1000.0 + grace:
                 p.kill()
                 results[idx] = {'result': 'unknown', 'time': time.time() - t0, 'model': None, 'backend': 'z3(killed)'}
                 done.append(idx)
